@@ -1,10 +1,12 @@
 SPECIFICATION TraceSpec
 CONSTANTS
   Reqs <- TraceReqs
+  Parts <- TraceParts
+  RegAfter <- TraceRegAfter
   Dups = {}
+  LookupAtomic = TRUE
   FailIdx = {}
-  RegisterFirst = TRUE
-INVARIANTS NoSpurious MatchOnce
+INVARIANTS NoSpuriousLast MatchOnceLast
 CONSTRAINT HighWater
 POSTCONDITION TraceAccepted
 CHECK_DEADLOCK FALSE
